@@ -388,8 +388,34 @@ def lin_class():
     return _LIN[0]
 
 
+_PARLIN = []
+
+
+def parlin_class():
+    """Rate constant  v * g  with g a PARAMETER KEY ("ma_pk" kind of OdeBuild.tla)."""
+    if not _PARLIN:
+        from chempy.util._expr import Expr
+
+        class ParLin(Expr):
+            argument_names = ("v",)
+            parameter_keys = ("g",)
+
+            def __call__(self, variables, backend=None, **kw):
+                (v,) = self.all_args(variables, backend=backend)
+                (g,) = self.all_params(variables, backend=backend)
+                return v * g
+
+        _PARLIN.append(ParLin)
+    return _PARLIN[0]
+
+
 def kname(i):
     return "k%d" % i
+
+
+def symname(s):
+    """name of the user-made concentration symbol of substance s (create_odesys, symorder)"""
+    return "c_" + s
 
 
 def param_obj(kind, i, kv):
@@ -405,7 +431,19 @@ def param_obj(kind, i, kv):
         return MassAction.fk(kname(i))
     if kind == "ma_uk":
         return MassAction([v], unique_keys=(kname(i),))
+    if kind == "ma_pk":
+        return MassAction(parlin_class()([v]))
     raise ValueError(kind)
+
+
+def user_symbols(cin):
+    """plain dict substance -> sympy symbol, inserted in the order the configuration asks for
+    (None when the configuration does not hand over symbols)."""
+    import sympy
+    order = cin["cfg"].get("symorder") or []
+    if not order:
+        return None
+    return {s: sympy.Symbol(symname(s)) for s in order}
 
 
 def build_odesys(cin):
@@ -436,7 +474,23 @@ def build_odesys(cin):
                 subs[kname(rx["k"])] = Lin([a])
             elif sk == "expruk":
                 subs[kname(rx["k"])] = Lin([a], unique_keys=("a1",))
-        return get_odesys(rsys, include_params=cfg["incl"], substitutions=subs or None, cstr=bool(cfg["cstr"]))
+        if cfg.get("gsub", "none") == "num":
+            subs["g"] = conv(cfg["gsubval"], "int")
+        elif cfg.get("gsub", "none") == "expr":
+            subs["g"] = Lin([a])
+        if cfg.get("fsub", "none") == "num":
+            subs[FEEDVAR] = conv(cfg["fsubval"], "int")
+        kw = {}
+        if cfg.get("consts"):
+            # a constants object: a class with plain-float attributes
+            attrs = {}
+            if "g" in cfg["consts"]:
+                attrs["g"] = conv(cfg["gconst"], "float")
+            if FEEDVAR in cfg["consts"]:
+                attrs[FEEDVAR] = conv(cfg["fconst"], "float")
+            kw["constants"] = type("Constants", (), attrs)
+        return get_odesys(rsys, include_params=cfg["incl"], substitutions=subs or None,
+                          cstr=bool(cfg["cstr"]), **kw)
     pe = {}
     for i, (sk, rx) in enumerate(zip(cfg["subs"], cin["rxns"])):
         if sk == "num":
@@ -448,6 +502,9 @@ def build_odesys(cin):
         kw["parameter_expressions"] = pe
     if cfg["cstr"]:
         kw["rates_kw"] = dict(cstr_fr_fc=(FEEDVAR, OrderedDict((s, fcvar(s)) for s in cin["subst"])))
+    usyms = user_symbols(cin)
+    if usyms is not None:
+        kw["substance_symbols"] = usyms
     return _create_odesys(rsys, **kw)
 
 
@@ -465,10 +522,21 @@ def observe_odesys(cin):
     obs = {"build": "ok", "names": names, "params": sorted(pnames),
            "params_unique": len(set(pnames)) == len(pnames)}
 
+    usyms = user_symbols(cin) if cin["cfg"]["builder"] == "create_odesys" else None
+    if cin["cfg"]["builder"] == "create_odesys":
+        # which substance does the i-th dependent variable stand for?  user-made symbols are
+        # identified by the symbol the harness created for the substance, default ones by name
+        inv = {v: k for k, v in (usyms or {}).items()}
+        obs["dep"] = [inv.get(sym, "?" + str(sym)) if usyms else str(sym) for sym in odesys.dep]
+
     def tables():
         rep = {}
-        for sym, n in zip(odesys.dep, names):
-            rep[sym] = sympy.Symbol(n)
+        if usyms:
+            for k, sym in usyms.items():
+                rep[sym] = sympy.Symbol(k)
+        else:
+            for sym, n in zip(odesys.dep, names):
+                rep[sym] = sympy.Symbol(n)
         for sym, n in zip(odesys.params, pnames):
             rep[sym] = sympy.Symbol(n)
         return proj_polys([sympy.sympify(e).xreplace(rep) for e in odesys.exprs], names + pnames)
@@ -493,7 +561,7 @@ def observe_odesys(cin):
     return obs
 
 
-def gen_build_config(rng, n):
+def gen_build_config(rng, n, substs=(), feed=False):
     """A random configuration from the families of OdeBuild_MC (not filtered: TLC's Accepted
     decides whether a configuration is inside the model)."""
     kinds_all = ["num", "ma_num", "str", "ma_fk", "ma_uk"]
@@ -520,9 +588,36 @@ def gen_build_config(rng, n):
         for i in named:
             if kinds[i] in ("str", "ma_fk"):
                 subs[i] = "num"
-    return {"builder": builder, "incl": incl, "kinds": kinds, "subs": subs, "comp": False,
-            "subvals": [[rng.choice([2, 3, 5, 7]), 1] for _ in range(n)],
-            "aval": [rng.choice([2, 3, 5]), 1], "tval": [rng.choice([2, 3, 7]), 1]}
+    cfg = {"builder": builder, "incl": incl, "kinds": kinds, "subs": subs, "comp": False,
+           "subvals": [[rng.choice([2, 3, 5, 7]), 1] for _ in range(n)],
+           "aval": [rng.choice([2, 3, 5]), 1], "tval": [rng.choice([2, 3, 7]), 1]}
+    cfg.update(default_pk_fields())
+    # parameter keys: some reactions carry v*g; substitution / constants object on g and feedratio
+    if rng.random() < 0.4:
+        for i in range(n):
+            if subs[i] == "none" and kinds[i] != "num" and rng.random() < 0.5:
+                kinds[i] = "ma_pk"
+    cfg["gval"] = [rng.choice([2, 3, 5]), 1]
+    cfg["gsubval"] = [rng.choice([2, 3, 7]), 1]
+    cfg["gconst"] = [rng.choice([3, 5, 7]), 1]
+    cfg["fsubval"] = [rng.choice([2, 3, 5]), 1]
+    cfg["fconst"] = [rng.choice([3, 5, 7]), 1]
+    if builder == "get_odesys":
+        if "ma_pk" in kinds and rng.random() < 0.5:
+            cfg["gsub"] = "num" if any(x in ("expr", "expruk") for x in subs) else rng.choice(["num", "expr"])
+        if feed and rng.random() < 0.4:
+            cfg["fsub"] = "num"
+        cfg["consts"] = rng.choice([[], [], ["g"], [FEEDVAR], ["g", FEEDVAR]])
+    elif substs and rng.random() < 0.6:
+        order = list(substs)
+        rng.shuffle(order)
+        cfg["symorder"] = order
+    return cfg
+
+
+def default_pk_fields():
+    return {"gsub": "none", "fsub": "none", "consts": [], "symorder": [],
+            "gval": [1, 1], "gsubval": [1, 1], "gconst": [1, 1], "fsubval": [1, 1], "fconst": [1, 1]}
 
 
 # ----------------------------------------------------------------------------- repository suite (code -> spec)
